@@ -101,6 +101,17 @@ def run_impl(case):
         else:
             checks["disk_decoded_with_declared_encoding_equals_memory_output"] = disk.decode(enc) == mem_out
         checks["caller_buffer_left_open"] = not buf.closed
+        # a caller-owned file-like object that is not an io.IOBase instance (the wrapper returned by
+        # tempfile.NamedTemporaryFile): it is filled through .write() like any other buffer
+        import tempfile as _tf
+
+        with _tf.NamedTemporaryFile(mode="w+b" if binary else "w+", dir=d, delete=False, **({} if binary else {"encoding": enc, "newline": ""})) as tmp:
+            f_mem.write(tmp)
+            tmp.flush()
+            tmp.seek(0)
+            got = tmp.read()
+            checks["caller_tempfile_wrapper_left_open"] = not tmp.closed
+        checks["caller_tempfile_wrapper_receives_memory_output"] = got == mem_out
         # round trip through disk = round trip through memory
         f_disk_rt = F.read(dst, *extra)
         f_mem_rt = F.read(mem_out, *extra)
